@@ -117,7 +117,7 @@ def cases(tier, seed):
     for name, where, ws, srcs in std:
         envs = ['free'] if where == 'free' else (['ideal'] + REAL_ENVS)
         for env in envs:
-            for ls in ('none', 'fed', 'all5', 'skin', 'insul', 'other50'):
+            for ls in ('none', 'fed', 'all5', 'skin', 'insul', 'other50', 'all5twice'):
                 yield dict(kind='std', name=name, env=env, f=f, lam=lam, wires=ws, srcs=srcs, loadset=ls)
     for c in c06.extras(tier, seed):
         if 'fine-fixed' in c['extra']:
@@ -171,6 +171,12 @@ def load_set(m, name, fed):
         m.register_load(mm.Impedance_Load(50 + 0j), (fed + 2) % N)
     elif name == 'all5':
         m.register_load(mm.Impedance_Load(5 + 0j))
+    elif name == 'all5twice':
+        # 15 Ohm on every pulse and the same load object once more on two of them (it then dissipates twice there)
+        ld = mm.Impedance_Load(15 + 0j)
+        m.register_load(ld)
+        m.register_load(ld, fed)
+        m.register_load(ld, (fed + 2) % N)
     elif name == 'skin':
         for w in m.geo:
             m.register_load(mm.Skin_Effect_Load(w, conductivity=1e5, all_wires=True), None, w.tag)
